@@ -24,7 +24,7 @@ use rustc_hir::definitions::DefPathData;
 use rustc_hir::{ExprKind, LoopSource, MatchSource, PatKind, QPath, StmtKind};
 use rustc_infer::infer::TyCtxtInferExt;
 use rustc_interface::interface::Compiler;
-use rustc_middle::ty::print::with_no_trimmed_paths;
+use rustc_middle::ty::print::{with_crate_prefix, with_no_trimmed_paths};
 use rustc_middle::ty::{self, Ty, TyCtxt, TypeckResults};
 use rustc_span::{ExpnKind, Span, SyntaxContext};
 use rustc_trait_selection::infer::InferCtxtExt;
@@ -141,8 +141,33 @@ struct BodyCx<'a, 'tcx> {
 }
 
 impl<'tcx> Dumper<'tcx> {
+    /// print with full paths; local items get the crate name instead of `crate::`
+    fn pr(&self, f: impl FnOnce() -> String) -> String {
+        let s = with_crate_prefix!(with_no_trimmed_paths!(f()));
+        if s.contains("crate::") {
+            let cn = self.tcx.crate_name(rustc_hir::def_id::LOCAL_CRATE).to_string();
+            let mut out = String::new();
+            let mut rest = s.as_str();
+            while let Some(i) = rest.find("crate::") {
+                let prev_ok = i == 0 || !rest.as_bytes()[i - 1].is_ascii_alphanumeric() && rest.as_bytes()[i - 1] != b'_' && rest.as_bytes()[i - 1] != b'$';
+                out.push_str(&rest[..i]);
+                if prev_ok {
+                    out.push_str(&cn);
+                    out.push_str("::");
+                } else {
+                    out.push_str("crate::");
+                }
+                rest = &rest[i + 7..];
+            }
+            out.push_str(rest);
+            out
+        } else {
+            s
+        }
+    }
+
     fn ty_str(&mut self, t: Ty<'tcx>) -> usize {
-        let s = with_no_trimmed_paths!(t.to_string());
+        let s = self.pr(|| t.to_string());
         self.strs.get(&s)
     }
 
@@ -165,7 +190,7 @@ impl<'tcx> Dumper<'tcx> {
                 let self_ty = tcx.type_of(did).instantiate_identity().skip_norm_wip();
                 let self_s = match self_ty.kind() {
                     ty::Adt(adt, _) => self.qn(adt.did()),
-                    _ => with_no_trimmed_paths!(self_ty.to_string()),
+                    _ => self.pr(|| self_ty.to_string()),
                 };
                 match tcx.impl_opt_trait_ref(did) {
                     Some(tr) => {
@@ -195,7 +220,7 @@ impl<'tcx> Dumper<'tcx> {
 
     fn trait_path(&mut self, tr: ty::TraitRef<'tcx>) -> String {
         let base = self.qn(tr.def_id);
-        let rest: Vec<String> = tr.args.iter().skip(1).map(|a| with_no_trimmed_paths!(a.to_string())).collect();
+        let rest: Vec<String> = tr.args.iter().skip(1).map(|a| self.pr(|| a.to_string())).collect();
         if rest.is_empty() {
             base
         } else {
@@ -269,7 +294,7 @@ impl<'tcx> Dumper<'tcx> {
                 self.def_ref(o, "", did);
                 let args = cx.typeck.node_args(hir_id);
                 if !args.is_empty() {
-                    let s = with_no_trimmed_paths!(format!("{:?}", args));
+                    let s = self.pr(|| format!("{:?}", args));
                     let si = self.strs.get(&s);
                     o.n("ga", si as i128);
                 }
@@ -664,7 +689,7 @@ impl<'tcx> Dumper<'tcx> {
                     let mut cur = t;
                     for a in adjs {
                         if let ty::adjustment::Adjust::Deref(ty::adjustment::DerefAdjustKind::Overloaded(_)) = a.kind {
-                            od.push(jq(&with_no_trimmed_paths!(cur.to_string())));
+                            od.push(jq(&self.pr(|| cur.to_string())));
                         }
                         cur = a.target;
                     }
@@ -706,7 +731,7 @@ impl<'tcx> Dumper<'tcx> {
                         self.def_ref(&mut o, "", did);
                         let ga = cx.typeck.node_args(fp.hir_id);
                         if !ga.is_empty() {
-                            let s = with_no_trimmed_paths!(format!("{:?}", ga));
+                            let s = self.pr(|| format!("{:?}", ga));
                             let si = self.strs.get(&s);
                             o.n("ga", si as i128);
                         }
@@ -733,7 +758,7 @@ impl<'tcx> Dumper<'tcx> {
                     self.def_ref(&mut o, "", did);
                     let ga = cx.typeck.node_args(e.hir_id);
                     if !ga.is_empty() {
-                        let s = with_no_trimmed_paths!(format!("{:?}", ga));
+                        let s = self.pr(|| format!("{:?}", ga));
                         let si = self.strs.get(&s);
                         o.n("ga", si as i128);
                     }
@@ -1142,7 +1167,7 @@ impl<'tcx> Dumper<'tcx> {
                                         nonimpl.push(jq(&format!(
                                             "{}: {}",
                                             f.name,
-                                            with_no_trimmed_paths!(ft.to_string())
+                                            self.pr(|| ft.to_string())
                                         )));
                                     }
                                 }
